@@ -136,6 +136,9 @@ Requests(sh, l) ==
       closeT == SetToSeq({[R("type", "T", <<>>, <<c>>) EXCEPT !.close = TRUE] : c \in CloseAll(TypesOf(l))})
       closeE == SetToSeq({[R("entry", "T", <<>>, <<c>>) EXCEPT !.close = TRUE, !.ent = j] :
                             <<j, c>> \in {<<j, c>> \in (1..Len(l)) \X (CloseAll(TypesOf(l)) \cup TypesOf(l)) : l[j].byval /\ CloseTypes(l[j].ty) # {} /\ (c = l[j].ty \/ c \in CloseTypes(l[j].ty))}})
+      \* every type is assignable to `any`: a request by name for the focus type `any` on a field of another type must panic
+      \* (a guard that only asks for assignability accepts it, and a two-word Put then covers the field's neighbours)
+      anyN == SetToSeq({R("name", "T", <<k>>, <<"any">>) : k \in {k \in KeysOf(l) : tyOf(k) # "any"}})
       single == [i \in 1..Len(keys) |-> R("name", "T", <<keys[i]>>, <<tyOf(keys[i])>>)]
       wrong == [i \in 1..Len(keys) |-> R("name", "T", <<keys[i]>>, <<Mismatch(sh, l[FirstKey(l, keys[i])])>>)]
       bytype == [i \in 1..Len(types) |-> R("type", "T", <<>>, <<types[i]>>)]
@@ -150,7 +153,7 @@ Requests(sh, l) ==
            R("name", "T", <<keys[1], "zz">>, <<tyOf(keys[1]), "int8">>), R("type", "T", <<>>, <<types[1], "uintptr">>),
            R("name", "*T", <<keys[1]>>, <<tyOf(keys[1])>>), R("type", "*T", <<>>, <<types[1]>>),
            R("name", "*T", <<"zz">>, <<"int8">>) >>
-     \o closeN \o closeT \o closeE
+     \o closeN \o closeT \o closeE \o anyN
 
 (* ------------------------------------------------------------------ abstract memory *)
 Guard == 8
